@@ -14,6 +14,7 @@ import (
 	"encoding/json"
 	"fmt"
 	"os"
+	"runtime"
 	"time"
 )
 
@@ -136,6 +137,14 @@ func PreemptAtLocks(b bool) {}
 // RaceDetect switches the engine's happens-before data-race detector on or off (natively: no-op;
 // native replays may be run under the real race detector instead).
 func RaceDetect(b bool) {}
+
+// Preemptions switches the engine's scheduler to preemption bounding: every lock acquisition
+// (with PreemptAtLocks), go statement and Yield is a point where the running goroutine may be
+// switched out, at most k times per path; choices at points where it had to stop anyway are free.
+func Preemptions(k int) {}
+
+// Yield marks a lower-layer boundary (a file-system or KV call) as a preemption point.
+func Yield() { runtime.Gosched() }
 
 // Tick returns a logical timestamp that increases with every executed instruction (natively: the
 // monotonic clock); it orders invocation and return events without synchronising anything.
